@@ -99,5 +99,6 @@ func main() {
 	c.loadKnown()
 	c.load(def.needSSA)
 	def.run(c)
+	c.genericLints()
 	os.Exit(c.finish())
 }
